@@ -198,7 +198,8 @@ class RoutingProblem:
         # penalized Quadratic and Linear equality constraints
         # ρ( xᵀQx + ||Ax - b||² ) = ρ( xᵀ(AᵀA + Q)x - 2bᵀAx + bᵀb )
         # -ρ2bᵀA goes on the diagonal
-        two_bTA = -2*A_eq.transpose().dot(b_eq)
+        # (atleast_1d: some sparse containers return a scalar when there is a single variable)
+        two_bTA = -2*np.atleast_1d(A_eq.transpose().dot(b_eq))
         Q = penalty_parameter * (
             Q_eq +
             A_eq.transpose().dot(A_eq) +
